@@ -24,12 +24,10 @@
 #define VP_MODE 0
 #endif
 
-/* VP_DIGITS (6..20): the number has exactly that many decimal digits (6: at
- * most 6), so that every string length is concrete for the symbolic executor;
- * the digits themselves stay symbolic.  ldb_encode_int is replaced
- * (--replace-calls) by vp_encode_int below, a fixed-width formatter that is
- * only valid inside the digit class; obligation f.encode-int proves the real
- * ldb_encode_int equal to the reference formatter for all 64-bit values. */
+/* VP_NUM: the descriptor number, concrete per query (with a symbolic number
+ * every C string has a symbolic length and the query does not finish); the
+ * formatter itself is checked for every value of a digit class in VP_MODE 1
+ * (VP_DIGITS). */
 #ifndef VP_DIGITS
 #define VP_DIGITS 6
 #endif
@@ -155,45 +153,55 @@ vp_pow10(int k) {
   return r;
 }
 
-int
-vp_encode_int(char *zp, uint64_t x, int pad) {
-  int i;
-  VP_ASSERT(pad == 6, "vp-model: fixed-width formatter is used with pad 6 only");
-  VP_ASSERT(x < vp_pow10(VP_DIGITS - 1) * 10 - (VP_DIGITS == 20) || VP_DIGITS == 20,
-            "vp-model: number inside the digit class (upper)");
-  VP_ASSERT(VP_DIGITS == 6 || x >= vp_pow10(VP_DIGITS - 1), "vp-model: number inside the digit class (lower)");
-  for (i = 0; i < VP_DIGITS; i++)
-    zp[i] = (char)('0' + (int)((x / vp_pow10(VP_DIGITS - 1 - i)) % 10));
-  zp[VP_DIGITS] = 0;
-  return VP_DIGITS;
+/* decimal literal -> uint64 without a 64-bit constant suffix (C89) */
+static uint64_t
+vp_parse_u64(const char *s) {
+  uint64_t v = 0;
+  size_t i;
+  for (i = 0; s[i] != 0; i++)
+    v = v * 10 + (uint64_t)(s[i] - '0');
+  return v;
 }
+#define VP_U64C(x) vp_parse_u64(#x)
 
 void
 harness(void) {
   static char want_tmp[VP_STR_MAX], want_cur[VP_STR_MAX], want_data[VP_STR_MAX], digits[24];
-  uint64_t num = vp_u64();
+  uint64_t num;
   size_t n, dn;
   int rc, i;
 
+#if VP_MODE == 1 || !defined(VP_NUM)
+  num = vp_u64();
+#else
+  num = VP_NUM; /* concrete */
+#endif
+
 #if VP_MODE == 1
-  { /* f.encode-int: the real formatter == reference, every 64-bit value */
+  { /* f.encode-int: the real formatter against the meaning of a decimal
+       numeral (Horner evaluation, no division): every character a digit, the
+       value equals x, zero padded to exactly max(6, minimal length), NUL
+       terminated.  VP_DIGITS = length class of x, concrete per query. */
     char got[32];
-    int gn = ldb_encode_int(got, num, 6);
-    dn = ref_decimal6(digits, num);
-    VP_ASSERT(gn >= 6 && (size_t)gn == dn, "ldb_encode_int length == reference (>= 6 digits)");
-    for (i = 0; i < 21; i++) {
-      if ((size_t)i <= dn)
-        VP_ASSERT(got[i] == digits[i], "ldb_encode_int digit == reference");
+    uint64_t v = 0;
+    int gn;
+#if VP_DIGITS < 20
+    VP_ASSUME(num < vp_pow10(VP_DIGITS));
+#endif
+#if VP_DIGITS > 6
+    VP_ASSUME(num >= vp_pow10(VP_DIGITS - 1));
+#endif
+    gn = ldb_encode_int(got, num, 6);
+    VP_ASSERT(gn == VP_DIGITS, "ldb_encode_int length == max(6, number of decimal digits)");
+    for (i = 0; i < VP_DIGITS; i++) {
+      VP_ASSERT(got[i] >= '0' && got[i] <= '9', "ldb_encode_int writes decimal digits");
+      v = v * 10 + (uint64_t)(got[i] - '0');
     }
+    VP_ASSERT(v == num, "the numeral written by ldb_encode_int denotes x");
+    VP_ASSERT(got[VP_DIGITS] == 0, "ldb_encode_int terminates the string");
     VP_WITNESS("encode-int");
     return;
   }
-#endif
-#if VP_DIGITS < 20
-  VP_ASSUME(num < vp_pow10(VP_DIGITS));
-#endif
-#if VP_DIGITS > 6
-  VP_ASSUME(num >= vp_pow10(VP_DIGITS - 1));
 #endif
   VP_ASSUME(num > 0);
 
